@@ -69,7 +69,8 @@ def put(content, off, size, val, be, E):
         content[off + k] = v
 
 
-def elf_fn(x64, be, nph, nsh):
+def elf_fn(x64, be, nph, nsh, unk=None):
+    """unk: index of a program header given a p_type amoco does not know (PT_GNU_PROPERTY): it is dropped, the others kept"""
     ehsize, phsz, shsz = SIZES[x64]
     ph0 = ehsize
     sh0 = ph0 + nph * phsz
@@ -100,6 +101,9 @@ def elf_fn(x64, be, nph, nsh):
         strndx = nsh - 1 if nsh else 0
         setf(EH, 0, "e_shstrndx", strndx)
         for k in range(nph):
+            if k == unk:
+                setf(PH, ph0 + k * phsz, "p_type", 0x6474E553)
+                continue
             t = fld(content, ph0 + k * phsz, PH["p_type"], x64, be)
             E.assume(z3.ULE(symx.zterm(t, 32), 7))
         for k in range(nsh):
@@ -119,10 +123,11 @@ def elf_fn(x64, be, nph, nsh):
         for name, spec in EH.items():
             E.prove(eq(getattr(p.Ehdr, name), fld(content, 0, spec, x64, be)), "Ehdr.%s" % name)
         E.prove(p.Ehdr.e_ident.EI_CLASS == (2 if x64 else 1) and p.Ehdr.e_ident.EI_DATA == (2 if be else 1), "e_ident")
-        E.prove(len(p.Phdr) == nph, "number of program headers %d, file has %d" % (len(p.Phdr), nph))
-        for k, P in enumerate(p.Phdr[:nph]):
+        kept = [k for k in range(nph) if k != unk]
+        E.prove(len(p.Phdr) == len(kept), "number of program headers kept %d, file has %d of a known type" % (len(p.Phdr), len(kept)))
+        for P, k in zip(p.Phdr, kept):
             for name, spec in PH.items():
-                E.prove(eq(getattr(P, name), fld(content, ph0 + k * phsz, spec, x64, be)), "Phdr[%d].%s" % (k, name))
+                E.prove(eq(getattr(P, name), fld(content, ph0 + k * phsz, spec, x64, be)), "Phdr entry %d of the file .%s" % (k, name))
         E.prove(len(p.Shdr) == nsh, "number of section headers %d, file has %d" % (len(p.Shdr), nsh))
         for k, S in enumerate(p.Shdr[:nsh]):
             for name, spec in SH.items():
@@ -306,6 +311,9 @@ def items(tier, seed):
         cases = keep + rest[:4]
     for c in cases:
         out.append(("elf",) + c + (tier,))
+    # a program header of a type amoco does not know, before / after a known one
+    for c in ([(False, False, 2, 0, 0), (True, False, 2, 0, 1)] if tier == "quick" else [(x64, be, 2, 0, u) for x64 in (False, True) for be in (False, True) for u in (0, 1)] + [(True, False, 2, 1, 0)]):
+        out.append(("elf",) + c + (tier,))
     for nd in ((0, 2) if tier == "quick" else (0, 1, 2, 4)):
         out.append(("hex", nd, tier))
     for st, nd in (((1, 2), (9, 0), (3, 1)) if tier == "quick" else ((0, 2), (1, 0), (1, 2), (2, 1), (3, 2), (5, 0), (7, 0), (8, 0), (9, 0))):
@@ -319,9 +327,10 @@ def run_item(item):
     kind = item[0]
     tier = item[-1]
     if kind == "elf":
-        _, x64, be, nph, nsh, _ = item
-        fn, n = elf_fn(x64, be, nph, nsh)
-        label = "elf%d%s:ph%d:sh%d" % (64 if x64 else 32, "be" if be else "le", nph, nsh)
+        x64, be, nph, nsh = item[1:5]
+        unk = item[5] if len(item) > 6 else None
+        fn, n = elf_fn(x64, be, nph, nsh, unk)
+        label = "elf%d%s:ph%d:sh%d%s" % (64 if x64 else 32, "be" if be else "le", nph, nsh, "" if unk is None else ":unknown-type@%d" % unk)
         caps = dict(index=None, seek=4, hash=8, format=4, str=4)
         pfx = "b"
     elif kind == "hex":
@@ -382,7 +391,7 @@ def replay(rep):
     item = rep["item"]
     kind = item[0]
     if kind == "elf":
-        fn, n = elf_fn(item[1], item[2], item[3], item[4])
+        fn, n = elf_fn(item[1], item[2], item[3], item[4], item[5] if len(item) > 6 else None)
     elif kind == "hex":
         fn, n = hexline_fn(item[1])
     else:
